@@ -581,11 +581,21 @@ def match_candidates_sample(
                     ].item()  # Flip sign for maximization.
 
         # Convert cost matrix to numpy for use with scipy's linear_sum_assignment.
-        cost_matrix_np = cost_matrix.numpy()
-        cost_matrix_np[np.isnan(cost_matrix_np)] = np.inf
+        cost_matrix_np = cost_matrix.numpy().astype(np.float64)
+
+        # Candidates without a usable score (e.g. NaN when the source and destination
+        # peaks coincide) must never be matched. Infinite costs make scipy raise
+        # "cost matrix is infeasible" as soon as no complete assignment avoids them, so
+        # give them a finite cost that outweighs any combination of valid costs and
+        # drop the matches that still had to use one.
+        is_invalid = ~np.isfinite(cost_matrix_np)
+        cost_matrix_np[is_invalid] = 2.0 * np.abs(cost_matrix_np[~is_invalid]).sum() + 1.0
 
         # Match.
         match_src_inds, match_dst_inds = linear_sum_assignment(cost_matrix_np)
+        is_valid_match = ~is_invalid[match_src_inds, match_dst_inds]
+        match_src_inds = match_src_inds[is_valid_match]
+        match_dst_inds = match_dst_inds[is_valid_match]
 
         # Pull out matched scores from the numpy cost matrix.
         match_line_scores_k = -cost_matrix_np[
